@@ -83,6 +83,8 @@ def run(ctx):
     for d in concrete[:50]:
         m = re.search(r"mon=(\S+)", d["model"])
         what = re.sub(r"@\d+|:[^,]*", "", m.group(1)) if m else d["op"].split(" ")[0]
+        if d["op"] == "d8reader":
+            what = "reader-stall-after-late-unsubscribe (%s)" % d["impl"]
         recorded += ctx.violation({"kind": "trace" if d["op"].startswith(("ctrace", "gtrace")) else "input", "input": d["op"], "actual": d["impl"],
                                    "expected": d["model"], "correspondence": d["correspondence"],
                                    "monitor": "property monitor of Oracle/C03.lean false on the implementation's output"},
